@@ -23,7 +23,7 @@ import (
 
 func TestMain(m *testing.M) {
 	stats.Init("C01")
-	stats.Rule("config axis (transport x pattern x mode) enumerated across shards; per case a fresh link, a drawn receive limit and 1-12 body lengths drawn from pool-class/limit boundaries (c-h-1..c-h+1, c-1..c+1, L-h-1, L-h), small and uniform values; content = PRF(key,index). Also: broadcasting patterns optionally with a second receiver. Non-trivial: the sequence contains a length adjacent (+-1, +-h) to a pool class or to the limit, or >=2 different pool classes back to back; distinct by (transport, pattern, mode, limit class, sorted size classes)")
+	stats.Rule("config axis (transport x pattern x mode) enumerated across shards; per case a fresh link, a drawn receive limit and 1-12 body lengths drawn from pool-class/limit boundaries (c-h-1..c-h+1, c-1..c+1, L-h-1, L-h), small and uniform values; content = PRF(key,index). Also: broadcasting patterns optionally with a second receiver. Non-trivial: the sequence contains a length adjacent (+-1, +-h) to a pool class or to the limit, or >=2 different pool classes back to back; distinct by (transport, pattern, mode, limit class, sorted size classes). Round 5: raw request/survey messages with application-built backtraces of 1-15 words (headers > 32 bytes), header filled before or after the body")
 	stats.Assume("sizes above 1 MiB and MaxRecvSize=0 are outside the domain")
 	rc := m.Run()
 	stats.Flush()
